@@ -69,7 +69,8 @@ class Monitor:
     """Wrappers installed on the real package (and on TaintedString.quoted) by the harness.
 
     Trace records:
-      ('stage', label, in_tainted, out_tainted, raw_lt_in, raw_lt_out, amp_out, lt_ent_out)
+      ('stage', label, in_tainted, out_tainted, raw_lt_in, raw_lt_out, amp_out, lt_ent_out,
+       lt_ent_in)
       ('stage-raise', label, in_tainted, exc)
       ('post-fmt-plain', raw_lt)       value not tainted when Var.render reaches the %s step
       ('quote', where)                 TaintedString.quoted(): final | newline_to_br | other:<fn>
@@ -103,10 +104,18 @@ class Monitor:
         self.real['Var.render'] = DT_Var.Var.render
         self.real['ustr'] = DT_Var.ustr
 
+        self.depth = 0
+
         def make_stage(label, real):
             def stage(v, *a, **k):
+                if mon.depth:
+                    # a stage used by another stage (dollars-with-commas -> thousands_commas):
+                    # only the outermost one is a pipeline stage
+                    return real(v, *a, **k)
                 tin = isinstance(v, T)
-                lin = '<' in strip_br(text_of(v))
+                tv = text_of(v)
+                lin = '<' in strip_br(tv)
+                mon.depth += 1
                 try:
                     out = real(v, *a, **k)
                 except BaseException as e:
@@ -114,10 +123,12 @@ class Monitor:
                     ctx.table('stage types', '%s %s -> raise %s'
                               % (label, type(v).__name__, type(e).__name__))
                     raise
+                finally:
+                    mon.depth -= 1
                 tout = isinstance(out, T)
                 txt = text_of(out)
                 mon.trace.append(('stage', label, tin, tout, lin, '<' in strip_br(txt),
-                                  '&amp;' in txt, '&lt;' in txt.lower()))
+                                  '&amp;' in txt, '&lt;' in txt.lower(), '&lt;' in tv.lower()))
                 ctx.table('stage types', '%s %s -> %s'
                           % (label, type(v).__name__, type(out).__name__))
                 if tin:
@@ -127,9 +138,20 @@ class Monitor:
             stage.__wrapped__ = real
             return stage
 
-        DT_Var.modifiers = [(n, make_stage('mod:' + n, f)) for n, f in DT_Var.modifiers]
+        wrapped = {}
+        new_mods = []
+        for n, f in DT_Var.modifiers:
+            if n not in wrapped:
+                wrapped[n] = make_stage('mod:' + n, f)
+            new_mods.append((n, wrapped[n]))
+        DT_Var.modifiers = new_mods
         for k in list(DT_Var.special_formats):
             DT_Var.special_formats[k] = make_stage('fmt:' + k, DT_Var.special_formats[k])
+        # the same functions as module globals (a render that calls one of them directly is
+        # traced as that modifier stage too)
+        for n, wfn in wrapped.items():
+            if getattr(DT_Var, n, None) is wfn.__wrapped__:
+                setattr(DT_Var, n, wfn)
 
         # Var.render / Var.__call__ (two names bound to one function in the class body)
         real_render = DT_Var.Var.render
@@ -338,18 +360,37 @@ def call_template(tmpl, c, T):
     raise ValueError(kind)
 
 
+# Expressions over x, with the rule (written from the TaintedString documentation, no engine or
+# AccessControl code is run to decide it) saying whether the result is still a marked value:
+# concatenation, repetition and the str-like methods TaintedString wraps keep the mark; an index or
+# slice keeps it iff the selected text contains '<'; the `string` module wrapper of DT_Util is
+# documented to "deal with TaintedString strings" (result re-marked when it contains '<');
+# an explicit conversion (_.str, or a method TaintedString merely forwards) is the template
+# author's own unmarking and is not judged.
+EXPR_MARKED = {
+    'x': lambda v: True,
+    "x+'a'": lambda v: True,
+    "'a'+x": lambda v: True,
+    'x*1': lambda v: True,
+    'x.upper()': lambda v: True,
+    'x.strip()': lambda v: True,
+    "x.replace('a','b')": lambda v: True,
+    'x[1:]': lambda v: '<' in v[1:],
+    'x[:-1]': lambda v: '<' in v[:-1],
+    'x[2:5]': lambda v: '<' in v[2:5],
+    'S.capwords(x)': lambda v: True,
+    'S.capwords(s=x)': lambda v: True,
+    '_.string.capwords(x)': lambda v: True,
+    '_.string.upper(x)': lambda v: True,
+    'x.casefold()': lambda v: False,
+    '_.str(x)': lambda v: False,
+}
+
+
 def expr_result_tainted(c, T):
-    """Does the expression itself (AccessControl semantics, no engine) yield a marked value?"""
     if c['via'] == 'name':
         return True
-    from DocumentTemplate import DT_Util
-    env = {'x': T(c['value']), 'S': DT_Util.StringModuleWrapper(), '_': DT_Util.TemplateDict(),
-           '__builtins__': {}}
-    try:
-        r = eval(c['via'], env)
-    except Exception:
-        return None
-    return isinstance(r, T)
+    return bool(EXPR_MARKED[c['via']](c['value']))
 
 
 # ------------------------------------------------------------------------------ classifier
@@ -392,18 +433,18 @@ def classify_double(c, trace, T):
     into escaped plain text, a later one escaped again), or -- observed directly -- the text was
     produced by TaintedString.__repr__, which is already quoted (%r / %a conversions, str() of
     a list returned by fmt=split), and was then escaped like any other text."""
+    if ('quote', 'other:__repr__') in trace:
+        return 'double-escape:tainted-repr'
     escaper = None
     for ev in trace:
         if ev[0] != 'stage':
             continue
-        _, label, tin, tout, lin, lout, amp, ltent = ev
+        _, label, tin, tout, lin, lout, amp, ltent, ltent_in = ev
         if escaper is None:
-            if tin and not tout and ltent and not lout:
-                escaper = label
+            if tin and not tout and ltent and not ltent_in and not lout:
+                escaper = label         # marked in, plain out, and this stage wrote the "&lt;"
         elif amp:
             return 'double-escape:%s+%s' % (escaper, label)
-    if ('quote', 'other:__repr__') in trace:
-        return 'double-escape:tainted-repr'
     return None
 
 
@@ -438,6 +479,9 @@ def evaluate(ctx, mon, case, cache=None):
     mon.reset()
     ctx.count('renders')
     ctx.count('family %s: cases' % fam)
+    ctx.table('family x syntax', '%s %s' % (fam, c['syntax']))
+    ctx.table('value source', c['ctx'] + (' guarded' if c['guard'] else ''))
+    ctx.table('position of first "<"', c['value'].find('<'))
     try:
         out = call_template(tmpl, c, T)
     except ParseError as e:
